@@ -209,6 +209,10 @@ pub fn offset_in(inner: &[u8], outer: &[u8]) -> (r: usize)
     ensures r + inner@.len() <= outer@.len(), outer@.subrange(r as int, r + inner@.len()) == inner@,
 { unsafe { inner.as_ptr().offset_from(outer.as_ptr()) as usize } }
 
+/// the length of a slice is a `usize` (trusted: `<[T]>::len` returns `usize`)
+#[verifier::external_body]
+pub proof fn lemma_slice_len_usize(s: &[u8]) ensures s@.len() <= usize::MAX {}
+
 pub proof fn lemma_u8_and_le(x: u8, m: u8) ensures (x & m) <= m { assert((x & m) <= m) by(bit_vector); }
 
 } // verus!
